@@ -427,6 +427,39 @@ class ModelCases(Suite):
                             continue
                         w[G.wire(f)] = G.with_str(f["ty"], ival, "int")
                         out.append({"cls": cid, "mode": "magic", "wire": w})
+            # LIMITS: every integer literal of the class's module (with its neighbours N-1, N, N+1) as the
+            # length of every list / string / free-form object member and as the value of every number
+            # member (the latter through the magic ints above) — spec-valid ones only: what a documented
+            # invariant forbids (101 completion values) is the hooks suite's business
+            t_self = {"k": "ref", "cls": cid}
+            for f in S[cid]["fields"]:
+                tk = f["ty"]["t"] if f["ty"]["k"] == "opt" else f["ty"]
+                for n_ in M["ints"]:
+                    if not (2 <= n_ <= 1100):
+                        continue
+                    if tk["k"] == "list":
+                        if tk["t"]["k"] == "ref":
+                            item = G.obj(tk["t"]["cls"], rng, present=set(), extras="none")
+                            val = [item] * n_
+                        else:
+                            one = G.value(tk["t"], rng, 3, {})
+                            val = [one if i % 2 else G.value(tk["t"], rng, 3, {}) for i in range(n_)]
+                    elif tk["k"] == "str":
+                        val = "s" * n_
+                    elif tk["k"] == "dict" and tk["t"]["k"] == "any":
+                        val = {"k%d" % i: i for i in range(n_)}
+                    else:
+                        continue
+                    if cid == "Root" and f["name"] == "uri":
+                        val = "file://" + val
+                    w = G.obj(cid, rng, present={f["name"]}, extras="none")
+                    if cid == "JSONRPCMessage" and G.wire(f) not in w:
+                        continue
+                    if cid in ("JSONRPCError", "JSONRPCMessage") and f["name"] == "error":
+                        continue
+                    w[G.wire(f)] = val
+                    if py_conforms(S, t_self, w):
+                        out.append({"cls": cid, "mode": "limit", "wire": w})
             # aliased members populated; the attribute name of an aliased member as a member name
             for f in G.aliased(cid):
                 for _ in range(2 * seeds):
